@@ -437,7 +437,7 @@ def body(chk: check.Check):
     st, val = rt.forked(replay, mut)
     chk.control('expected maximiser moved by one in an actively bounded coordinate', st != 'ok' or bool(val['mismatches']))
     chk.uncovered += ['non-concave models; bootstrap; algorithms that do not report convergence are only checked for feasibility, monotonicity and consistency of the reported figures']
-    chk.assumptions += ['estimates compared at 5e-4, maximum value at 1e-6 (optimiser tolerance); bound-unaware algorithms are run without bounds']
+    chk.assumptions += ['estimates compared at 5e-4, maximum value at 1e-6 (optimiser tolerance); for an algorithm that does not handle bounds the problem is the one WITHOUT the declared bounds']
 
 
 if __name__ == '__main__':
